@@ -144,6 +144,17 @@ def run(F, rep):
     ve = {x['v'] for c in vf.walk() if c.get('k') == 'Call' and c.get('fn') == 'isMathmlElement' for x in walk(c) if x.get('k') == 'Str'}
     af = F.fn1('Analyser::AnalyserImpl::analyseNode')
     ae = {x['v'] for c in af.walk() if c.get('k') == 'Call' and c.get('fn') == 'isMathmlElement' for x in walk(c) if x.get('k') == 'Str'}
+    # table-driven dispatch: a helper called from analyseNode that tests isMathmlElement(<entry of a file-level table>) contributes the strings of that table
+    for ck_ in {k_ for c in af.walk() if c.get('k') == 'Call' and not c.get('opc') for k_ in F.callee_keys(c)}:
+        h_ = F.funcs.get(ck_)
+        if h_ is None or h_.file != af.file or h_ is af:
+            continue
+        if any(c.get('k') == 'Call' and c.get('fn') == 'isMathmlElement' and not any(x.get('k') == 'Str' for x in walk(c)) for c in h_.walk()):
+            for r_ in h_.walk():
+                if r_.get('k') == 'Ref' and r_.get('dk') == 'global':
+                    gl_ = next((v_ for k2_, v_ in F.globals.items() if v_.get('n') == r_.get('n') and v_.get('file') == h_.file), None)
+                    if gl_ is not None and gl_.get('init') is not None:
+                        ae |= {x['v'] for x in walk(gl_['init']) if x.get('k') == 'Str'}
     where = '%s:%d' % (g['file'], g['line'])
     for e in sorted(els | ve | ae):
         if e == 'math':
